@@ -990,6 +990,236 @@ fn route_op(ii: &IndexedInstruments, op: &[String], lines: &mut Vec<String>) {
     through_builder(ii, &adds, request, lines);
 }
 
+// ------------------------------------------------------------------------------------ sroute
+
+/// Configuration-shape family: the live client of exchange label `N` for the `sroute` op. Unlike
+/// `RStub` its account is NOT empty: `account_snapshot` answers with one balance per asset name and
+/// one (order-less) instrument entry per instrument name it is ASKED about (amount = 1000 * N +
+/// position + 1, free = total, time t0), and both `account_snapshot` and `account_stream` record
+/// the names they were handed (`asked<N> …` / `asks<N> …`).
+#[derive(Debug, Clone)]
+struct SStub<const N: usize> {
+    log: Arc<Mutex<Vec<String>>>,
+}
+
+fn asked_toks(assets: &[AssetNameExchange], instruments: &[InstrumentNameExchange]) -> String {
+    let mut t = vec!["A".to_string()];
+    t.extend(assets.iter().map(|a| a.name().to_string()));
+    t.push("I".into());
+    t.extend(instruments.iter().map(|i| i.name().to_string()));
+    t.join(" ")
+}
+
+impl<const N: usize> ExecutionClient for SStub<N> {
+    const EXCHANGE: ExchangeId = EXCHANGES[N];
+    type Config = Arc<Mutex<Vec<String>>>;
+    type AccountStream = futures::stream::Pending<UnindexedAccountEvent>;
+
+    fn new(config: Self::Config) -> Self {
+        SStub { log: config }
+    }
+
+    async fn account_snapshot(
+        &self,
+        assets: &[AssetNameExchange],
+        instruments: &[InstrumentNameExchange],
+    ) -> Result<UnindexedAccountSnapshot, UnindexedClientError> {
+        self.log.lock().unwrap().push(format!("asked{N} {}", asked_toks(assets, instruments)));
+        Ok(AccountSnapshot {
+            exchange: Self::EXCHANGE,
+            balances: assets
+                .iter()
+                .enumerate()
+                .map(|(k, a)| {
+                    let amount = Decimal::from((1000 * N + k + 1) as u64);
+                    AssetBalance::new(a.clone(), Balance::new(amount, amount), t0())
+                })
+                .collect(),
+            instruments: instruments
+                .iter()
+                .map(|i| InstrumentAccountSnapshot::new(i.clone(), vec![]))
+                .collect(),
+        })
+    }
+
+    async fn account_stream(
+        &self,
+        assets: &[AssetNameExchange],
+        instruments: &[InstrumentNameExchange],
+    ) -> Result<Self::AccountStream, UnindexedClientError> {
+        self.log.lock().unwrap().push(format!("asks{N} {}", asked_toks(assets, instruments)));
+        Ok(futures::stream::pending())
+    }
+
+    fn cancel_order(
+        &self,
+        request: OrderRequestCancel<ExchangeId, &InstrumentNameExchange>,
+    ) -> impl Future<Output = UnindexedOrderResponseCancel> + Send {
+        std::future::ready(echo_cancel(request))
+    }
+
+    fn open_order(
+        &self,
+        request: OrderRequestOpen<ExchangeId, &InstrumentNameExchange>,
+    ) -> impl Future<
+        Output = Order<ExchangeId, InstrumentNameExchange, Result<Open, UnindexedOrderError>>,
+    > + Send {
+        std::future::ready(echo_open(request))
+    }
+
+    async fn fetch_balances(
+        &self,
+    ) -> Result<Vec<AssetBalance<AssetNameExchange>>, UnindexedClientError> {
+        unimplemented!()
+    }
+
+    async fn fetch_open_orders(
+        &self,
+    ) -> Result<Vec<Order<ExchangeId, InstrumentNameExchange, Open>>, UnindexedClientError> {
+        unimplemented!()
+    }
+
+    async fn fetch_trades(
+        &self,
+        _: DateTime<Utc>,
+    ) -> Result<Vec<Trade<QuoteAsset, InstrumentNameExchange>>, UnindexedClientError> {
+        unimplemented!()
+    }
+}
+
+/// `sroute <n> <e>*n`: the real `ExecutionBuilder` over `ii` with `add_live::<SStub<e>>` for every
+/// label of the list (in this order), `build()`, `init()` on a paused current-thread runtime.
+/// Observed: the slots of the transmitter table and, per linked exchange in slot order, the names
+/// its client was asked about by `account_snapshot` and `account_stream` and the indexed initial
+/// snapshot that arrived on the merged account channel.
+fn sroute_op(ii: &IndexedInstruments, op: &[String], lines: &mut Vec<String>) {
+    let mut c = Cur { t: &op[1..], i: 0 };
+    let n = c.count();
+    let adds: Vec<usize> = (0..n).map(|_| c.count()).collect();
+    c.done();
+    let log = Arc::new(Mutex::new(Vec::new()));
+    let timeout = std::time::Duration::from_secs(1);
+    let mut builder = ExecutionBuilder::new(ii);
+    for e in &adds {
+        let res = match e {
+            0 => builder.add_live::<SStub<0>>(log.clone(), timeout),
+            1 => builder.add_live::<SStub<1>>(log.clone(), timeout),
+            2 => builder.add_live::<SStub<2>>(log.clone(), timeout),
+            3 => builder.add_live::<SStub<3>>(log.clone(), timeout),
+            4 => builder.add_live::<SStub<4>>(log.clone(), timeout),
+            _ => panic!("bad op: exchange label out of range"),
+        };
+        match res {
+            Ok(next) => builder = next,
+            Err(BarterError::IndexError(_)) => {
+                lines.push("r builderr index".into());
+                return;
+            }
+            Err(BarterError::ExecutionBuilder(_)) => {
+                lines.push("r builderr duplicate".into());
+                return;
+            }
+            Err(other) => panic!("unexpected builder error {other:?}"),
+        }
+    }
+    let build = match std::panic::catch_unwind(std::panic::AssertUnwindSafe(|| builder.build())) {
+        Ok(build) => build,
+        Err(_) => {
+            lines.push("r buildpanic".into());
+            return;
+        }
+    };
+    let rt = tokio::runtime::Builder::new_current_thread()
+        .enable_time()
+        .start_paused(true)
+        .build()
+        .unwrap();
+    let res = rt.block_on(async {
+        let Execution {
+            execution_txs,
+            mut account_channel,
+            handles,
+        } = match build.init().await {
+            Ok(x) => x,
+            Err(_) => return None,
+        };
+        let slots: Vec<(usize, bool)> = (&execution_txs)
+            .into_iter()
+            .map(|(id, tx)| (label(*id), tx.is_some()))
+            .collect();
+        tokio::time::sleep(std::time::Duration::from_secs(3)).await;
+        handles.managers.iter().for_each(|h| h.abort());
+        handles.account_to_engines.iter().for_each(|h| h.abort());
+        handles.mock_exchanges.iter().for_each(|h| h.abort());
+        let mut events = vec![];
+        while let Ok(ev) = account_channel.rx.rx.try_recv() {
+            events.push(ev);
+        }
+        Some((slots, events))
+    });
+    let Some((slots, events)) = res else {
+        lines.push("r initerr".into());
+        return;
+    };
+    let mut txmap = vec!["txmap".to_string()];
+    txmap.extend(slots.iter().map(|(l, some)| format!("{l}:{}", *some as u8)));
+    lines.push(txmap.join(" "));
+    lines.push("r ok".into());
+    // the initial snapshot of every link, by the label of the exchange at the EVENT's exchange index
+    let mut snaps: Vec<(String, String)> = vec![];
+    for ev in events {
+        match ev {
+            AccountStreamEvent::Item(AccountEvent { exchange, kind: AccountEventKind::Snapshot(s) }) => {
+                let who = ii
+                    .exchanges()
+                    .iter()
+                    .find(|k| k.key == exchange)
+                    .map(|k| label(k.value).to_string())
+                    .unwrap_or_else(|| "?".into());
+                let mut t = vec![exchange.0.to_string(), s.exchange.0.to_string(), "B".into()];
+                for b in &s.balances {
+                    let ok = b.balance.free == b.balance.total && b.time_exchange == t0();
+                    t.push(format!("{}:{}{}", b.asset.0, b.balance.total, if ok { "" } else { "!payload" }));
+                }
+                t.push("I".into());
+                for i in &s.instruments {
+                    t.push(format!("{}{}", i.instrument.0, if i.orders.is_empty() { "" } else { "!orders" }));
+                }
+                snaps.push((who, t.join(" ")));
+            }
+            other => lines.push(format!("unexpected {other:?}")),
+        }
+    }
+    let log = log.lock().unwrap().clone();
+    for (l, some) in &slots {
+        if !some {
+            continue;
+        }
+        for key in [format!("asked{l}"), format!("asks{l}")] {
+            let mut hit = false;
+            for entry in log.iter().filter(|e| e.split(' ').next() == Some(key.as_str())) {
+                lines.push(entry.clone());
+                hit = true;
+            }
+            if !hit {
+                lines.push(format!("{key} none"));
+            }
+        }
+        let who = l.to_string();
+        let mut hit = false;
+        for (_, t) in snaps.iter().filter(|(w, _)| *w == who) {
+            lines.push(format!("snap{l} {t}"));
+            hit = true;
+        }
+        if !hit {
+            lines.push(format!("snap{l} none"));
+        }
+    }
+    for (w, t) in snaps.iter().filter(|(w, _)| !slots.iter().any(|(l, some)| *some && l.to_string() == *w)) {
+        lines.push(format!("snap-stray {w} {t}"));
+    }
+}
+
 // ------------------------------------------------------------------------------------ run
 
 struct Def {
@@ -1334,6 +1564,7 @@ fn run() {
                     built = Some(ii);
                 }
                 "route" => route_op(built.as_ref().expect("build first"), op, lines),
+                "sroute" => sroute_op(built.as_ref().expect("build first"), op, lines),
                 _ => query(built.as_ref().expect("build first"), op, lines),
             }
         }
@@ -2023,6 +2254,26 @@ fn generate(seed: u64, n_cases: usize, tier: &str) {
         let mut r2 = rd.fork();
         let n_ops = if tier == "thorough" { 30 } else { 20 };
         emit_case(&mut out, format!("d{}", k + 1), &defs, |out, ii| domain_ops(out, &mut r2, ii, n_ops));
+    }
+    // configuration-shape family (`cfg` cases): its own seed, so every case above stays what it was.
+    // Clients whose account is NOT empty at start-up and which record the names they are asked
+    // about: per case 5 / 8 link selections (every other one with the first exchange link-less;
+    // then all linked in reverse order, only the LAST exchange linked, none linked)
+    let mut rc = Rng::new(seed ^ 0xCF61_0C04);
+    for k in 0..(n_cases / 6).max(6) {
+        let defs = if k % 3 == 2 { domain_defs(&mut rc, k % 6) } else { random_defs(&mut rc) };
+        let mut r2 = rc.fork();
+        let n_sets = if tier == "thorough" { 5 } else { 2 };
+        emit_case(&mut out, format!("cfg{}", k + 1), &defs, |out, ii| {
+            let present = present_labels(ii);
+            for s in 0..n_sets {
+                out.line(format!("sroute {}", adds_tok(&g_adds(&mut r2, &present, s % 2 == 0))));
+            }
+            let rev: Vec<usize> = present.iter().rev().copied().collect();
+            out.line(format!("sroute {}", adds_tok(&rev)));
+            out.line(format!("sroute {}", adds_tok(&rev[..rev.len().min(1)])));
+            out.line("sroute 0".to_string());
+        });
     }
     out.flush();
 }
